@@ -53,56 +53,6 @@ def IsSparse : Sparsity → Prop
   | .dense _ => False
   | _ => True
 
-/-! ### Helpers: reading a denotation / a successful conversion back -/
-
-private theorem denote_csc {z : β} {s : CSC} {v : List β} {M : Mat β} (h : denote z (.csc s) v = some M) :
-    ∃ es, cscEntriesSpec s = some es ∧ ValidEntries s.rows s.cols s.sym es ∧
-      M = lookupMat z s.rows s.cols s.sym es v := by
-  simp only [denote] at h
-  cases hes : cscEntriesSpec s with
-  | none => rw [hes] at h; cases h
-  | some es =>
-    rw [hes] at h
-    exact ⟨es, rfl, (sparseMat_eq_some.mp h).1, (sparseMat_eq_some.mp h).2⟩
-
-private theorem denote_coo {z : β} {s : COO} {v : List β} {M : Mat β} (h : denote z (.coo s) v = some M) :
-    ∃ es, cooEntriesSpec s = some es ∧ ValidEntries s.rows s.cols s.sym es ∧
-      M = lookupMat z s.rows s.cols s.sym es v := by
-  simp only [denote] at h
-  cases hes : cooEntriesSpec s with
-  | none => rw [hes] at h; cases h
-  | some es =>
-    rw [hes] at h
-    exact ⟨es, rfl, (sparseMat_eq_some.mp h).1, (sparseMat_eq_some.mp h).2⟩
-
-private theorem dense_accepts {z : β} {d : Dense} {t : Target} {req : Request} {cv : Conv β}
-    (ht : t ≠ .dense) (hc : convert z (.dense d) t req = .ok cv) :
-    d.sym ≠ .lower ∧ (d.sym ≠ .unsym → d.rows = d.cols) := by
-  by_contra hcon
-  have hbad : d.sym = .lower ∨ (d.sym = .upper ∧ d.rows ≠ d.cols) := by
-    by_cases hl : d.sym = .lower
-    · exact Or.inl hl
-    · right
-      have : ¬ (d.sym ≠ .unsym → d.rows = d.cols) := fun h => hcon ⟨hl, h⟩
-      have hne : d.sym ≠ .unsym ∧ d.rows ≠ d.cols := by
-        constructor
-        · intro hu; exact this (fun h => absurd hu h)
-        · intro he; exact this (fun _ => he)
-      refine ⟨?_, hne.2⟩
-      cases hs : d.sym
-      · exact absurd hs hne.1
-      · rfl
-      · exact absurd hs hl
-  obtain ⟨h1, h2⟩ := denseRejects_true d hbad
-  cases t with
-  | dense => exact ht rfl
-  | csc ity => simp [convert, denseToCsc, h2] at hc
-  | coo ity => simp [convert, denseToCoo, h1] at hc
-
-private theorem cooToCsc_never_ok {s : COO} {ity : IdxTy} {req : Request} {cv : Conv β} :
-    cooToCsc s ity req ≠ .ok cv := by
-  unfold cooToCsc; split <;> intro h <;> cases h
-
 /-! ### 1. Conversions preserve the matrix -/
 
 /-- **convert_preserves.**  If the pattern conversion succeeds and the source denotes a matrix `M`,
@@ -189,19 +139,6 @@ theorem toDense_fills_every_cell (z : β) (r : Sparsity) (hr : IsSparse r) (req 
     exact ⟨v', hv', hl, hraw⟩
 
 /-! ### 2. Requested ordering and index base honoured; dimensions and symmetry kept -/
-
-private theorem cscToCoo_flags {s : CSC} {ity : IdxTy} {req : Request} {cv : Conv β}
-    (h : cscToCoo s ity req = .ok cv) :
-    ∃ s' : COO, cv.out = .coo s' ∧ s'.rows = s.rows ∧ s'.cols = s.cols ∧ s'.sym = s.sym ∧
-      s'.ity = ity ∧ s'.firstIndex = req.firstIndex.getD 0 := by
-  unfold cscToCoo at h
-  split at h
-  · cases h
-  · split at h
-    · cases h
-    · cases h
-      refine ⟨_, rfl, rfl, rfl, rfl, rfl, ?_⟩
-      cases hr : req.firstIndex <;> simp [Gen.C14.cscCooFirstIndex]
 
 /-- **request_honoured.**  A successful conversion returns the requested format and index type
     with the dimensions and symmetry tag of the source; a COO target has exactly the requested
@@ -549,5 +486,100 @@ theorem variant_alternatives :
 theorem copy_converters :
     Gen.C14.denseDenseValuesCopy = true ∧ Gen.C14.cscCooValuesCopy = true ∧
     Gen.C14.cooCooValuesCopy = true := by decide
+
+/-! ### 7. Non-vacuity: the hypotheses are satisfiable and the conclusions have content
+
+(values over `Int`, zero = 0; evaluated by kernel reduction of the model) -/
+section examples
+
+/-- 2×3 unsymmetric COO with Fortran indices: `A = [[10, 0, 30], [0, 20, 0]]`. -/
+def coo23 : Sparsity :=
+  .coo { rows := 2, cols := 3, sym := .unsym, rowIdx := [1, 2, 1], colIdx := [1, 2, 3],
+         order := .colsAndRows, firstIndex := 1, ity := .int }
+
+/-- symmetric 3×3, upper triangle in CSC: `A = [[1, 2, 0], [2, 3, 0], [0, 0, 4]]`. -/
+def csc33 : Sparsity :=
+  .csc { rows := 3, cols := 3, sym := .upper, inner := [0, 0, 1, 2], outer := [0, 1, 3, 4],
+         order := .sortedRows, ity := .long }
+
+/-- the same structure tagged lower-triangular: entry (0, 1) is in the wrong triangle. -/
+def csc33bad : Sparsity :=
+  .csc { rows := 3, cols := 3, sym := .lower, inner := [0, 0, 1, 2], outer := [0, 1, 3, 4],
+         order := .sortedRows, ity := .long }
+
+/-- a 2×3 pattern tagged symmetric. -/
+def coo23sym : Sparsity :=
+  .coo { rows := 2, cols := 3, sym := .upper, rowIdx := [0], colIdx := [1],
+         order := .unsorted, firstIndex := 0, ity := .int }
+
+-- the hypotheses of `convert_preserves` / `toDense_fills_every_cell` hold …
+example : (denote (0 : Int) coo23 [10, 20, 30]).isSome = true := by rfl
+example : (denote (0 : Int) csc33 [1, 2, 3, 4]).isSome = true := by rfl
+example : StructWF csc33 ∧ StructWF coo23 := by
+  constructor
+  · show csc33.entries? ≠ none
+    have h' : csc33.entries? = some [(0, 0), (0, 1), (1, 1), (2, 2)] := rfl
+    rw [h']; simp
+  · show coo23.entries? ≠ none
+    have h' : coo23.entries? = some [(0, 0), (1, 1), (0, 2)] := rfl
+    rw [h']; simp
+-- … and the conversions produce what one expects (column-major; mirrored cells filled)
+example : convertAll (0 : Int) coo23 .dense {} [10, 20, 30] =
+    .ok (.dense { rows := 2, cols := 3, sym := .unsym }, [10, 0, 0, 20, 30, 0]) := by rfl
+example : convertAll (0 : Int) csc33 .dense {} [1, 2, 3, 4] =
+    .ok (.dense { rows := 3, cols := 3, sym := .upper }, [1, 2, 0, 2, 3, 0, 0, 0, 4]) := by rfl
+example : convertAll (0 : Int) csc33 (.coo .int) { firstIndex := some 1 } [1, 2, 3, 4] =
+    .ok (.coo { rows := 3, cols := 3, sym := .upper, rowIdx := [1, 1, 2, 3], colIdx := [1, 2, 2, 3],
+                order := .colsAndRows, firstIndex := 1, ity := .int }, [1, 2, 3, 4]) := by rfl
+example : convertAll (0 : Int) coo23 (.coo .longlong) { firstIndex := some 0 } [10, 20, 30] =
+    .ok (.coo { rows := 2, cols := 3, sym := .unsym, rowIdx := [0, 1, 0], colIdx := [0, 1, 2],
+                order := .colsAndRows, firstIndex := 0, ity := .longlong }, [10, 20, 30]) := by rfl
+-- dense symmetric source: the upper triangle is extracted (values 11 … 33 stored column-major)
+example : convertAll (0 : Int) (.dense { rows := 3, cols := 3, sym := .upper }) (.coo .int)
+      { firstIndex := some 1 } [11, 21, 31, 12, 22, 32, 13, 23, 33] =
+    .ok (.coo { rows := 3, cols := 3, sym := .upper, rowIdx := [1, 1, 2, 1, 2, 3],
+                colIdx := [1, 2, 2, 3, 3, 3], order := .colsAndRows, firstIndex := 1, ity := .int },
+         [11, 12, 22, 13, 23, 33]) := by rfl
+example : convertAll (0 : Int) (.dense { rows := 2, cols := 3, sym := .unsym }) (.csc .int) {}
+      [1, 2, 3, 4, 5, 6] =
+    .ok (.csc { rows := 2, cols := 3, sym := .unsym, inner := [0, 1, 0, 1, 0, 1], outer := [0, 2, 4, 6],
+                order := .sortedRows, ity := .int }, [1, 2, 3, 4, 5, 6]) := by rfl
+-- empty shapes
+example : convertAll (0 : Int) (.dense { rows := 0, cols := 3, sym := .unsym }) (.csc .int) {} [] =
+    .ok (.csc { rows := 0, cols := 3, sym := .unsym, inner := [], outer := [0, 0, 0, 0],
+                order := .sortedRows, ity := .int }, []) := by rfl
+-- the hypotheses of `toDense_rejects_invalid` hold for concrete invalid inputs, which are rejected
+example : WrongTriangle csc33bad ∧ InRange csc33bad ∧ ¬ NonSquareSymmetric csc33bad := by
+  refine ⟨⟨[(0, 0), (0, 1), (1, 1), (2, 2)], rfl, (0, 1), by simp, rfl⟩, ?_, by simp [NonSquareSymmetric, csc33bad, Sparsity.rows, Sparsity.cols]⟩
+  intro es hes
+  have : es = [(0, 0), (0, 1), (1, 1), (2, 2)] := by
+    have h : csc33bad.entries? = some [(0, 0), (0, 1), (1, 1), (2, 2)] := rfl
+    rw [h] at hes; exact (Option.some.inj hes).symm
+  subst this
+  decide
+example : convertAll (0 : Int) csc33bad .dense {} [1, 2, 3, 4] = .error .invalidArgument := by rfl
+example : NonSquareSymmetric coo23sym := by
+  simp [NonSquareSymmetric, coo23sym, Sparsity.sym, Sparsity.rows, Sparsity.cols]
+example : convertAll (0 : Int) coo23sym .dense {} [7] = .error .invalidArgument := by rfl
+-- sparse → sparse passes the invalid pattern through unchanged (denotation `none` on both sides)
+example : convertAll (0 : Int) coo23sym (.coo .long) { firstIndex := some 1 } [7] =
+    .ok (.coo { rows := 2, cols := 3, sym := .upper, rowIdx := [1], colIdx := [2],
+                order := .unsorted, firstIndex := 1, ity := .long }, [7]) := by rfl
+example : (denote (0 : Int) coo23sym [7]).isNone = true := by rfl
+-- unsupported requests in this build
+example : convertAll (0 : Int) coo23 (.csc .int) {} [10, 20, 30] = .error .runtimeError := by rfl
+example : convertAll (0 : Int) (.dense { rows := 2, cols := 2, sym := .lower }) (.coo .int) {}
+    [1, 2, 3, 4] = .error .invalidArgument := by rfl
+-- order tags
+example : OrderTruthful csc33 := by
+  intro es hes
+  have h : cscEntriesSpec
+      { rows := 3, cols := 3, sym := .upper, inner := [0, 0, 1, 2], outer := [0, 1, 3, 4],
+        order := .sortedRows, ity := .long } = some [(0, 0), (0, 1), (1, 1), (2, 2)] := rfl
+  rw [h] at hes; cases hes
+  show List.Pairwise _ _
+  decide
+
+end examples
 
 end Alpaqa.Props.C14
